@@ -903,10 +903,15 @@ class GroupBy:
                     pointer = slice(None)
                 else:
                     pointer = self._group_key_pointers[first_chunk_in + j]
+                chunk_count = counts_one_value[j][:-1]  # ignore null group
                 combined[pointer] = numba_funcs.reduce_array_pair(
-                    combined[pointer], result, reducer=reducer, counts=count[pointer]
+                    combined[pointer],
+                    result,
+                    reducer=reducer,
+                    counts=count[pointer],
+                    y_counts=chunk_count,  # groups absent from this chunk contribute nothing
                 )
-                count[pointer] += counts_one_value[j][:-1]  # ignore null group
+                count[pointer] += chunk_count
             individual_results.append((combined, count))
 
         return individual_results
